@@ -38,7 +38,7 @@ def floors(tier):
 class Judge(object):
     def __init__(self, ctx):
         self.ctx = ctx
-        self.sf = env.load_selfies()
+        self.sf = env.varied(env.load_selfies(), ctx)
         self.table = None
         self.tname = None
 
@@ -110,7 +110,7 @@ class Judge(object):
 
 
 def run(ctx):
-    sf = env.load_selfies()
+    sf = env.varied(env.load_selfies(), ctx)
     hooks.attach_m1()
     hooks.attach_m2()
     hooks.attach_m3()
